@@ -228,27 +228,4 @@ def run (w : World) (fuel : Nat) : HSt → List Step → List Ans × HSt
     let (as, h2) := run w fuel h1 rest
     (a :: as, h2)
 
-/-- `MakeHash` → `SetMethodList` → `fillJsonMap` calls `NumField` on the type of EVERY anonymous
-field: an embedded pointer (or any embedded non-struct) panics, so no record of such a type can be
-made at all. -/
-def anonOk (w : World) : Nat → List Field → Bool
-  | 0, _ => true
-  | n+1, fs => fs.all (fun f =>
-      if f.anon then
-        match f.ty with
-        | .struct s => match w.find s with
-          | some d => anonOk w n d.fields
-          | none => true
-        | _ => false
-      else true)
-
-def constructible (w : World) : Nat → Sx → Bool
-  | 0, _ => true
-  | n+1, .arr xs => xs.all (constructible w n)
-  | n+1, .hash _ tn kvs =>
-    (match w.lookupReg tn with
-     | some d => anonOk w 8 d.fields
-     | none => true) && kvs.all (fun kv => constructible w n kv.2)
-  | _+1, _ => true
-
 end ZygoVerif.ToGoHist
